@@ -155,7 +155,7 @@ def VolumeMatrix(
     box = list_box[nconfig]
     # work on a copy: points may alias snapshot.positions (box centred at the origin) and is perturbed below
     points = np.array(list_points[nconfig])
-    num_particles = points.shape[nconfig]
+    num_particles = points.shape[0]
     matrixA = np.zeros((num_particles, num_particles * ndim))
 
     # original voronoi volume
